@@ -190,6 +190,14 @@ pub fn stress_family() -> Vec<(String, Case)> {
     v.push(stress("chain-v9-20B", vec![chain(v9_pkt(0, &[]))]));
     v.push(stress("chain-v5-24B", vec![chain(enc_fixed(5, 0, &[0; 20], &[]))]));
     v.push(stress("chain-v7-24B", vec![chain(enc_fixed(7, 0, &[0; 20], &[]))]));
+    // V5/V7 packets with the record counts real exporters use at most (30 resp. 28), the
+    // counts around them, and as many records as a datagram holds
+    for (ver, rl) in [(5u16, 48usize), (7, 52)] {
+        for n in [27usize, 28, 29, 30, 31, 32, 255, 256, (65535 - 24) / rl] {
+            let recs: Vec<Vec<u8>> = (0..n).map(|k| (0..rl).map(|i| (k * 7 + i * 3 + 1) as u8).collect()).collect();
+            v.push(stress(&format!("v{}-{}-records", ver, n), vec![enc_fixed(ver, n as u16, &[3; 20], &recs)]));
+        }
+    }
     // chain of ipfix messages that each carry data under a cached template
     {
         let d = plain(vec![(1, 1)]);
